@@ -28,7 +28,9 @@ Hypotheses shared by the coverage theorems, and why they are there:
 | "cycle numbers increase by one per completed cycle" | `cycle_numbers_increment` |
 | constants: 1024 sorted two-character prefixes | `num_prefixes_pinned` |
 | why the hypotheses: one prefix / a mid-slice kill | `single_prefix_stale_cache`, `kill_repeats_work` (counterexamples) |
-| timing (`allowed_cpu_percentage`, sleep times), subclass state in the state file, atomicity of the file write | not covered (correspondence exercises save/load through the real file only) |
+| "process kills at every point" incl. kills INSIDE the state write (after truncate / partial write / before / after the rename) | atomicity of `_LeaseStateSerializer.save` is a model parameter: `cycle_numbers_increment_atomic`, `state_file_tracks_memory_with_save_kills`, `save_kill_is_kill_or_restart` (tmp + rename: such a kill is a pre-save kill or a restart, so the coverage theorems apply); in-place variant refuted: `nonatomic_save_resets_cycle_numbers`; which variant the code is: observed by the harness |
+| the crawler orders each directory listing itself (listing = a set) | the model sorts (`sortNames`) inside `bucketsFor`; `sorted_listing_is_covered`; without the sort: `unsorted_listing_skips_buckets` (counterexample) |
+| timing (`allowed_cpu_percentage`, sleep times), subclass state in the state file | not covered |
 -/
 namespace Tahoe.C27
 open Tahoe.Storage.Crawler
@@ -170,6 +172,71 @@ example :
 
 example : (loadState (saveState ⟨some 4, some 3, 7, some 12⟩)).p = ⟨some 4, some 3, 7, some 12⟩ ∧
     saveState ⟨some 4, some 3, 7, some 12⟩ = ⟨some 4, some 3, some 6, some 12⟩ := by decide
+
+/-! ### Kills inside the state write (atomicity of `save` as a parameter) -/
+
+/-- Whatever the write discipline, what a new process loads equals what it then has in memory. -/
+theorem state_file_tracks_memory_with_save_kills (atomic : Bool) (np : Nat) (evs : List PEventA) :
+    let P := (runProcA atomic np procInit evs).1
+    loadFile P.file = { P.mem with cache := none } :=
+  runProcA_sync atomic np evs procInit sync_init
+
+/-- ATOMIC write (tmp + rename, what the code does): for every schedule - slices, kills at any
+    `process_bucket` call, kills at any point INSIDE a state write (end of slice or stopService),
+    restarts, orderly stops - one more event leaves `last-cycle-finished` unchanged or advances it by
+    exactly one; it never goes back or resets; every call carries the next number. -/
+theorem cycle_numbers_increment_atomic (np : Nat) (evs : List PEventA) (ev : PEventA) :
+    let P := (runProcA true np procInit evs).1
+    let r := stepProcA true np P ev
+    (r.1.mem.p.lcf = P.mem.p.lcf ∨ (r.1.mem.p.lcf = some (nextCycle P.mem.p.lcf) ∧ r.1.mem.p.cur = none)) ∧
+    ∀ e ∈ r.2, e.cycle = nextCycle P.mem.p.lcf := by
+  obtain ⟨hs, hw⟩ := runProcA_inv np evs procInit sync_init wfC_init
+  exact (stepProcA_cycle np _ ev hs hw).2
+
+/-- ATOMIC write: a kill inside the final `save_state` of a slice is, for the crawl, a slice killed
+    just before its save (old file survives) or a complete slice followed by a restart (new file):
+    the coverage / exactly-once theorems, which quantify over both, apply to it. -/
+theorem save_kill_is_kill_or_restart (np : Nat) (evs : List PEventA) (ls : Nat → List Nat) (o : List Bool)
+    (pt : SavePoint) :
+    let P := (runProcA true np procInit evs).1
+    let r := stepProcA true np P (.saveKill ls o pt)
+    (r.1.mem = (step np P.mem (.killed ls o (slice np ls P.mem o).2.length)).1 ∧
+      r.2 = (step np P.mem (.killed ls o (slice np ls P.mem o).2.length)).2) ∨
+    (r.1.mem = (step np (slice np ls P.mem o).1 .restart).1 ∧ r.2 = (slice np ls P.mem o).2) :=
+  saveKill_is_kill_or_restart np _ ls o pt (runProcA_inv np evs procInit sync_init wfC_init).1
+
+/-- IN-PLACE write (not what the code does; seeded change C27-d): two cycles complete, then the
+    process is killed right after the truncating open of the third state write - the file is
+    unreadable, the new process starts from scratch: `last-cycle-finished` falls from 1 to None and
+    the next completed cycle is numbered 0 again.  With the atomic write the same schedule keeps 1
+    and goes on to 2. -/
+theorem nonatomic_save_resets_cycle_numbers :
+    let evs : List PEventA := [.ev (.slice exLs []), .ev (.slice exLs []), .saveKill exLs [] .truncated]
+    (runProcA false 3 procInit evs).1.mem.p.lcf = none ∧
+    (runProcA false 3 procInit (evs ++ [.ev (.slice exLs [])])).1.mem.p.lcf = some 0 ∧
+    (runProcA true 3 procInit evs).1.mem.p.lcf = some 1 ∧
+    (runProcA true 3 procInit (evs ++ [.ev (.slice exLs [])])).1.mem.p.lcf = some 2 := by
+  decide
+
+/-! ### The listing is a set; the crawler orders it -/
+
+/-- On a SORTED listing `process_prefixdir`, when it returns normally, has processed every listed
+    bucket that was not already at or before the marker. -/
+theorem sorted_listing_is_covered (cyc i : Nat) (lcb : Option Nat) (bs : List Nat) (o : List Bool)
+    (hsorted : bs.Pairwise (· ≤ ·)) (hdone : (processPrefixdir cyc i lcb bs o).ex = false) :
+    ∀ x ∈ bs, (∃ l, lcb = some l ∧ x ≤ l) ∨ (⟨cyc, i, x⟩ : Entry) ∈ (processPrefixdir cyc i lcb bs o).log :=
+  fun x hx => ppd_cover cyc i bs lcb o hsorted x hx (ppd_done cyc i bs lcb o hdone x hx)
+
+/-- Why the sort matters (seeded change C26-d dropped it): on the unsorted listing `[5, 3]`
+    `process_prefixdir` processes 5, moves the marker to 5 and silently skips 3 - although nothing
+    interrupted it.  The model of the code sorts first (`bucketsFor`), and then both are processed. -/
+theorem unsorted_listing_skips_buckets :
+    (processPrefixdir 0 0 none [5, 3] []).log = [⟨0, 0, 5⟩] ∧ (processPrefixdir 0 0 none [5, 3] []).ex = false ∧
+    (processPrefixdir 0 0 none (bucketsFor (fun _ => [5, 3]) none 0) []).log = [⟨0, 0, 3⟩, ⟨0, 0, 5⟩] := by
+  decide
+
+example : [3, 5].Pairwise (· ≤ ·) ∧ (processPrefixdir 0 0 none [3, 5] [false, false]).ex = false := by
+  decide
 
 /-! Non-vacuity: three prefixes, buckets 3 and 5 under prefix 1 (listed unsorted), 9 under prefix 2.
     Slice interrupted after the second check, a slice killed after one call, two more slices. -/
